@@ -30,9 +30,23 @@ RULE = "generated models (vlib.genfw.random_spec; regimes calibrated/extreme/bou
 EXPECTED_BRANCHES = ["has.timed", "has.junction", "has.resjunction", "has.transfer", "has.source", "rescale.active", "has.timedlink", "flush.nonempty_junction"]
 
 
+def focus(r):
+    """a third of the models get duration groups with junctions inside them (several timed inflows, residual outflows): the row-wise balancing of a
+    junction that belongs to a duration group is where people can be lost or duplicated without any untimed flow being wrong"""
+    if r.random() < 0.35:
+        f = {"timed": r.choice([1, 1, 2]), "max_rows": 12, "group_size": r.choice([2, 2, 3]), "n_tr_extra": r.choice([0, 2])}
+        if r.random() < 0.6:
+            f["jgroup"] = True
+            f["residual"] = r.random() < 0.5
+        else:
+            f["group_junction"] = 1.0
+        return f
+    return {}
+
+
 def run(ctx):
     engine_corr.selfcheck_ref(ctx, 2)
-    engine_corr.run_stream(ctx, PROPERTY, ctx.n(120, 3000))
+    engine_corr.run_stream(ctx, PROPERTY, ctx.n(120, 3000), focus=focus)
 
 
 if __name__ == "__main__":
